@@ -255,16 +255,37 @@ def observe(rng, base, dirname, names, depth, hostile):
            SearchDef(r'other')]
     tags = [1, 2, None]
     ops = gen_ops(rng, d, names, nsearch)
+    # history: the SAME path string registered again later (possibly for
+    # another search) while the directory population changes in between -
+    # every registration denotes the files that exist when it is made
+    grows = {}
+    again = [o for o in ops if o[1] in ('dir', 'glob')]
+    if again and rng.random() < 0.4:
+        _, form, arg = rng.choice(again)
+        ops.append((rng.randrange(nsearch), form, arg))
+        stem = rng.choice(STEMS)
+        grows[len(ops) - 1] = rng.sample(
+            ['late.log', 'late.txt', stem + '.log.1', stem + '.log.2.gz',
+             stem + '.log', 'zz.log.1'], rng.randint(1, 4))
     fs = FileSearcher(max_logrotate_depth=depth)
     coq_ops, denoted, singles = [], [], []
-    for s, form, arg in ops:
+    allow, coq_allow = [], []
+    for k, (s, form, arg) in enumerate(ops):
+        for n in grows.get(k, ()):
+            if os.path.isdir(os.path.join(d, n)):
+                continue
+            with open(os.path.join(d, n), 'w') as f:
+                f.write('hello 1\n')
         tgt, regular, kind = listing_of(form, arg)
         coq_ops.append(f"({s + 1}, {'None' if tags[s] is None else 'Some %d' % tags[s]}, {tgt})")
         denoted.append((kind, regular))
         one = FileSearcher(max_logrotate_depth=depth)
         one.add(sds[s], arg)
         singles.append(list(one.files))
-        fs.add(sds[s], arg)
+        a = rng.random() < 0.7
+        allow.append((s + 1, a))
+        coq_allow.append(f"({s + 1}, {'true' if a else 'false'})")
+        fs.add(sds[s], arg, allow_global_constraints=a)
     files = list(fs.files)
     ids = {sd.id: i + 1 for i, sd in enumerate(sds)}
     searches, dedup = [], []
@@ -273,8 +294,11 @@ def observe(rng, base, dirname, names, depth, hostile):
         t = SearchTask(e, constraints_manager=fs.constraints_manager,
                        results_manager=None)
         dedup.append([ids[x.id] for x in t.search_defs])
-    want = [[cps(p) for p in files], searches, dedup]
-    case = f"(({depth}, [" + "; ".join(coq_ops) + "]) : case_t)"
+    restricted = sorted(
+        ids[x] for x in fs.constraints_manager.global_restrictions)
+    want = [[cps(p) for p in files], searches, dedup, restricted]
+    case = (f"(({depth}, [" + "; ".join(coq_ops) + "], ["
+            + "; ".join(coq_allow) + "]) : case_t)")
     # ------------------------------------------------ spec oracle
     bad = []
     ws = any(c.isspace() for c in d)
@@ -323,6 +347,11 @@ def observe(rng, base, dirname, names, depth, hostile):
         if dd != exp:
             bad.append(('task-defs-not-deduplicated', {'searches': got,
                                                        'task': dd}))
+    exp_restr = sorted(set(i for i, a in allow if not a))
+    if restricted != exp_restr:
+        bad.append(('global-restrictions-differ',
+                    {'restricted': restricted, 'added_with_false': exp_restr,
+                     'history': allow}))
     src = [e['source_id'] for e in fs.catalog]
     if len(set(src)) != len(src) or any(
             fs.catalog.source_id_to_path(e['source_id']) != e['path']
@@ -340,6 +369,7 @@ def observe(rng, base, dirname, names, depth, hostile):
             'cap_binds': any(v > depth for v in copies.values()),
             'overlap': any(len(v) > 1 for v in exp_search.values()),
             'hostile': hostile, 'whitespace': ws,
+            'directory_changed_between_registrations': bool(grows),
             'metachar_exact_path': any(
                 f == 'file' and any(c in os.path.basename(a) for c in '[]?*')
                 for _, f, a in ops),
@@ -375,9 +405,10 @@ def source_params(chk):
 
 PRE_CASES = """
 From SK Require Import Model.Collection Model.Catalog.
-Definition case_t : Type := (Z * list (Z * option Z * target))%type.
+Definition case_t : Type :=
+  (Z * list (Z * option Z * target) * list (Z * bool))%type.
 Definition run_case (x : case_t) : jv :=
-  let '(depth, ops) := x in
+  let '(depth, ops, allows) := x in
   let c := add_all grp_fixed NOMATCH depth ops in
   let fs := cat_files c in
   JL [JL (map JZs fs);
@@ -385,7 +416,8 @@ Definition run_case (x : case_t) : jv :=
                              | Some e => e_searches e | None => [] end)) fs);
       JL (map (fun p => JZs (task_defs
                 (match dget str_eqb (entries c) p with
-                 | Some e => e_searches e | None => [] end))) fs)].
+                 | Some e => e_searches e | None => [] end))) fs);
+      JZs (sort_by (fun z => z) (fs_restrictions allows))].
 """
 
 PRE_RX = """
@@ -484,9 +516,20 @@ def real_run(cfg, workdir):
 
     T.SearchTask.execute = execute
     try:
+        from searchkit import SequenceSearchDef
+        # the third search is a sequence without end/body: one result per
+        # line matching its start pattern (sections end at the next start)
         sds = [SearchDef(r'hello (\d+)', tag='h'),
-               SearchDef(r'.*world', tag='w')]
-        pats = [re.compile(r'hello (\d+)'), re.compile(r'.*world')]
+               SearchDef(r'.*world', tag='w'),
+               SequenceSearchDef(start=SearchDef(r'hello (\d+)'), tag='q')]
+        pats = [re.compile(r'hello (\d+)'), re.compile(r'.*world'),
+                re.compile(r'hello (\d+)')]
+        lookup = ['h', 'w', 'q-start']
+        if cfg.get('buffer'):
+            # flush threshold of the task's results buffer (10000 in the
+            # source): small, so that it is reached while the sequence
+            # results of a file are being emitted
+            T.NUM_BUFFERED_RESULTS = cfg['buffer']
         fs = FileSearcher(max_logrotate_depth=cfg['depth'],
                           max_parallel_tasks=cfg['par'])
         regs = {}
@@ -496,7 +539,7 @@ def real_run(cfg, workdir):
             forms.append(os.path.join(d, rng.choice(files)))
             forms.append(os.path.join(d, rng.choice(files)))
         for _ in range(rng.randint(2, 5)):
-            s = rng.randrange(2)
+            s = rng.randrange(3)
             arg = rng.choice(forms)
             before = FileSearcher(max_logrotate_depth=cfg['depth'])
             before.add(sds[s], arg)
@@ -517,15 +560,15 @@ def real_run(cfg, workdir):
         for p in fs.files:
             text = contents.get(p, '')
             lines = text.split('\n')[:-1]
-            for s in (0, 1):
+            for s in (0, 1, 2):
                 exp = [i + 1 for i, ln in enumerate(lines)
                        if pats[s].match(ln)] if s in regs.get(p, ()) else []
                 got = sorted(r.linenumber for r in
-                             res.find_by_tag('hw'[s], path=p))
+                             res.find_by_tag(lookup[s], path=p))
                 nres += len(got)
                 if got != exp:
                     bad.append(('match-not-reported-exactly-once',
-                                {'path': p, 'search': 'hw'[s], 'got': got,
+                                {'path': p, 'search': lookup[s], 'got': got,
                                  'expected_lines': exp,
                                  'registered': len(
                                      [1 for e in fs.catalog
@@ -694,6 +737,8 @@ def run(chk):
             chk.dist('overlapping-registrations')
         if m['whitespace']:
             chk.dist('whitespace-in-directory-name')
+        if m['directory_changed_between_registrations']:
+            chk.dist('same-path-registered-again-after-directory-changed')
         if m['metachar_exact_path']:
             chk.dist('exact-path-with-glob-metacharacters')
         if (m['cap_binds'] or m['overlap']) and o['case'] not in seen:
@@ -732,7 +777,8 @@ def run(chk):
     for i in range(nruns):
         cfg = {'seed': rng.randrange(1 << 30), 'depth': rng.randint(0, 4),
                'par': rng.choice([1, 2, 4]),
-               'dirname': {1: 'my.logs and more', 2: 'app.logs'}.get(i)}
+               'dirname': {1: 'my.logs and more', 2: 'app.logs'}.get(i),
+               'buffer': [None, 3, 7, 2][i % 4]}
         res, err = in_child(lambda cfg=cfg: real_run(cfg, chk.work),
                             os.path.join(chk.work, 'real_run.json'), 40)
         if err:
